@@ -14,6 +14,7 @@ import numpy as np
 from jsim import envs, props, util
 
 ROOT = "/verif"
+OUT = os.environ.get("JSIM_OUT", ROOT)  # evidence/ and replays/ go here (development runs redirect it)
 
 
 def load_known() -> Dict[str, Any]:
@@ -124,7 +125,7 @@ def finish(pid: str, tier: str, seed: int, prop: Any, results: List[Dict[str, An
         (listed if hit else unlisted).append((v, hit))
     # ---- report -------------------------------------------------------------------------------
     rc = 0
-    os.makedirs(os.path.join(ROOT, "replays"), exist_ok=True)
+    os.makedirs(os.path.join(OUT, "replays"), exist_ok=True)
     seen_known = set()
     for v, hit in listed:
         fid = hit[0].get("id", "?")
@@ -132,7 +133,7 @@ def finish(pid: str, tier: str, seed: int, prop: Any, results: List[Dict[str, An
             seen_known.add(fid)
             print(f"KNOWN-FINDING: property={pid} {fid}: {hit[0].get('what', '')} [{v['env']}/{v['config']['id']}: {v['detail'][:160]}]")
     for n, (v, _) in enumerate(unlisted):
-        path = os.path.join(ROOT, "replays", f"{pid}_{v['env']}_{v['config']['id']}_{seed}_{n}.json".replace("+", "_"))
+        path = os.path.join(OUT, "replays", f"{pid}_{v['env']}_{v['config']['id']}_{seed}_{n}.json".replace("+", "_"))
         v = dict(v)
         v["repo_head"] = repo_head()
         with open(path, "w") as f:
@@ -171,8 +172,8 @@ def finish(pid: str, tier: str, seed: int, prop: Any, results: List[Dict[str, An
         "assumptions": prop.assumptions,
         "wall_s": round(wall, 2), "violations": len(unlisted),
     }
-    os.makedirs(os.path.join(ROOT, "evidence"), exist_ok=True)
-    with open(os.path.join(ROOT, "evidence", f"{pid}.json"), "w") as f:
+    os.makedirs(os.path.join(OUT, "evidence"), exist_ok=True)
+    with open(os.path.join(OUT, "evidence", f"{pid}.json"), "w") as f:
         json.dump(util.jsonable(ev), f, indent=1, sort_keys=True)
     print(f"jsim: property={pid} runs={runs} steps={steps} distinct_nontrivial={len(nontriv)} states={states} "
           f"violations={len(unlisted)} known={len(seen_known)} harness_errors={len(errors)} wall={wall:.1f}s")
